@@ -63,6 +63,16 @@ func buildPool(c *mon.Ctx, g *groups.Group, rng *gen.Rng, nRand int) []pp {
 		add(C.Add(rq, G), "cofactor-torsion+G")
 		add(C.Neg(q), "-(curve-point-outside-subgroup)")
 	}
+	// 3-torsion: on y^2 = x^3 + b the points (0, +-sqrt(b)) have order 3 when b is a square
+	if f.IsZero(C.A) {
+		if y, ok := f.Sqrt(C.B); ok && !f.IsZero(y) {
+			p := ocurve.Pt{X: f.Zero(), Y: y}
+			if C.IsOnCurve(p) && C.Add(C.Double(p), p).Inf {
+				add(p, "order-3(0,sqrt(b))")
+				add(C.Add(p, G), "order-3+G")
+			}
+		}
+	}
 	// 2-torsion (y = 0) when a rational root of x^3+ax+b is easy to find: a = 0 => x = cbrt(-b)
 	if f.IsZero(C.A) {
 		// x = (-b)^((2q-1)/3) is a cube root when q = 2 mod 3; otherwise try exponent-based search is skipped
@@ -256,7 +266,7 @@ func evalOp(c *mon.Ctx, g *groups.Group, op groups.Op, key string, pts []pp, rep
 		case "equal":
 			want = C.Eq(pts[0].p, pts[1].p)
 		}
-		c.Check(op.Name, key+"/predicate-mismatch/"+fmt.Sprint(want), out.B == want, func() string {
+		c.Check(op.Name, key+"/predicate-mismatch/"+fmt.Sprint(want)+"/"+cls, out.B == want, func() string {
 			return fmt.Sprintf("%s = %v, oracle says %v", desc(), out.B, want)
 		})
 		return
